@@ -586,6 +586,7 @@ func (n *node) RouteLinkPID(pid gen.PID, target gen.PID) error {
 		if err := n.targetManager.AddLink(pid, target); err != nil {
 			return err
 		}
+		lib.VerifPoint("link.recheck", target)
 		// the target could have gone after the check above: its termination
 		// would not see this relation and the requester would never be notified
 		if _, exist := n.processes.Load(target); exist == false {
@@ -661,6 +662,7 @@ func (n *node) RouteLinkProcessID(pid gen.PID, target gen.ProcessID) error {
 		if err := n.targetManager.AddLink(pid, target); err != nil {
 			return err
 		}
+		lib.VerifPoint("link.recheck", target)
 		// the target could have gone after the check above: its termination
 		// would not see this relation and the requester would never be notified
 		if _, exist := n.names.Load(target.Name); exist == false {
@@ -733,6 +735,7 @@ func (n *node) RouteLinkAlias(pid gen.PID, target gen.Alias) error {
 		if err := n.targetManager.AddLink(pid, target); err != nil {
 			return err
 		}
+		lib.VerifPoint("link.recheck", target)
 		// the target could have gone after the check above: its termination
 		// would not see this relation and the requester would never be notified
 		if _, exist := n.aliases.Load(target); exist == false {
@@ -813,6 +816,7 @@ func (n *node) RouteLinkEvent(pid gen.PID, target gen.Event) ([]gen.MessageEvent
 		if err := n.targetManager.AddLink(pid, target); err != nil {
 			return nil, err
 		}
+		lib.VerifPoint("link.recheck", target)
 		// the event could have gone after the check above: its termination
 		// would not see this relation and the requester would never be notified
 		if _, exist := n.events.Load(target); exist == false {
@@ -946,6 +950,7 @@ func (n *node) RouteMonitorPID(pid gen.PID, target gen.PID) error {
 		if err := n.targetManager.AddMonitor(pid, target); err != nil {
 			return err
 		}
+		lib.VerifPoint("link.recheck", target)
 		// the target could have gone after the check above: its termination
 		// would not see this relation and the requester would never be notified
 		if _, exist := n.processes.Load(target); exist == false {
@@ -1024,6 +1029,7 @@ func (n *node) RouteMonitorProcessID(pid gen.PID, target gen.ProcessID) error {
 		if err := n.targetManager.AddMonitor(pid, target); err != nil {
 			return err
 		}
+		lib.VerifPoint("link.recheck", target)
 		// the target could have gone after the check above: its termination
 		// would not see this relation and the requester would never be notified
 		if _, exist := n.names.Load(target.Name); exist == false {
@@ -1098,6 +1104,7 @@ func (n *node) RouteMonitorAlias(pid gen.PID, target gen.Alias) error {
 		if err := n.targetManager.AddMonitor(pid, target); err != nil {
 			return err
 		}
+		lib.VerifPoint("link.recheck", target)
 		// the target could have gone after the check above: its termination
 		// would not see this relation and the requester would never be notified
 		if _, exist := n.aliases.Load(target); exist == false {
@@ -1177,6 +1184,7 @@ func (n *node) RouteMonitorEvent(pid gen.PID, target gen.Event) ([]gen.MessageEv
 		if err := n.targetManager.AddMonitor(pid, target); err != nil {
 			return nil, err
 		}
+		lib.VerifPoint("link.recheck", target)
 		// the event could have gone after the check above: its termination
 		// would not see this relation and the requester would never be notified
 		if _, exist := n.events.Load(target); exist == false {
